@@ -1,0 +1,47 @@
+//go:build verif
+
+package libp2pwebtransport
+
+import (
+	"crypto/ecdsa"
+	"crypto/tls"
+	"crypto/x509"
+	"time"
+
+	"github.com/benbjohnson/clock"
+	ic "github.com/libp2p/go-libp2p/core/crypto"
+	ma "github.com/multiformats/go-multiaddr"
+	"github.com/multiformats/go-multihash"
+)
+
+// Read-only aliases for the runtime-monitoring harness (/verif, property C18). Nothing here changes
+// behaviour; the file is compiled only with the `verif` build tag.
+
+const (
+	VerifCertValidity       = certValidity
+	VerifClockSkewAllowance = clockSkewAllowance
+)
+
+// VerifCertManager wraps the unexported certManager.
+type VerifCertManager struct{ m *certManager }
+
+func VerifNewCertManager(hostKey ic.PrivKey, clk clock.Clock) (*VerifCertManager, error) {
+	m, err := newCertManager(hostKey, clk)
+	if err != nil {
+		return nil, err
+	}
+	return &VerifCertManager{m: m}, nil
+}
+
+func (v *VerifCertManager) GetConfig() *tls.Config         { return v.m.GetConfig() }
+func (v *VerifCertManager) SerializedCertHashes() [][]byte { return v.m.SerializedCertHashes() }
+func (v *VerifCertManager) AddrComponent() ma.Multiaddr    { return v.m.AddrComponent() }
+func (v *VerifCertManager) Close() error                   { return v.m.Close() }
+
+func VerifVerifyRawCerts(rawCerts [][]byte, certHashes []multihash.DecodedMultihash) error {
+	return verifyRawCerts(rawCerts, certHashes)
+}
+
+func VerifGenerateCert(key ic.PrivKey, start, end time.Time) (*x509.Certificate, *ecdsa.PrivateKey, error) {
+	return generateCert(key, start, end)
+}
